@@ -7,6 +7,7 @@ from fractions import Fraction as F
 import numpy as _np
 import z3
 
+from . import core
 from .core import (CTX, SR, SymBool, Lin, PiPoly, lift, Restart, SymnpUnsupported, PI, _const_of)
 
 MAXD = {}          # atom name -> finest granularity discovered so far (persists across restarts)
@@ -21,11 +22,11 @@ def _pi():
     return PI
 
 
-def new_angle(name, rng='pm_pi', unit='rad', var=None, lazy=None):
+def new_angle(name, rng='pm_pi', unit='rad', var=None, lazy=None, fv=None):
     """declare an angle atom. rng: 'pm_pi' (-pi,pi], '0_pi' [0,pi], 'pm_halfpi' [-pi/2,pi/2], 'free'"""
     v = var if var is not None else z3.Real(name)
     CTX.atoms[name] = dict(var=v, rng=rng, unit=unit, lazy=lazy, linked=False)
-    x = SR(v, Lin({name: PiPoly({0: F(1)})}, PiPoly()))
+    x = SR(v, Lin({name: PiPoly({0: F(1)})}, PiPoly()), None, fv)
     if unit == 'rad':
         pi = _pi()
         if rng == 'pm_pi':
@@ -201,39 +202,55 @@ def cossin(x):
 def sym_cos(x):
     if not isinstance(x, SR):
         return math.cos(x)
-    return SR(cossin(x)[0])
+    return SR(cossin(x)[0], None, None, core._fop(_np.cos, x))
 
 
 def sym_sin(x):
     if not isinstance(x, SR):
         return math.sin(x)
-    return SR(cossin(x)[1])
+    return SR(cossin(x)[1], None, None, core._fop(_np.sin, x))
 
 
 def sym_tan(x):
     if not isinstance(x, SR):
         return math.tan(x)
     c, s = cossin(x)
-    return SR(s) / SR(c)
+    return SR(s, None, None, core._fop(_np.sin, x)) / SR(c, None, None, core._fop(_np.cos, x))
 
 
-def _lazy(kind, rng, args):
+def _lazy(kind, rng, args, fv=None):
+    args = tuple(z3.simplify(a) for a in args)
+    from . import algcert
+    ck = tuple(algcert.canon_key(a) for a in args)
+    if all(k is not None for k in ck):
+        key = ('lazy', kind, rng) + ck          # equal as rational functions => the same angle
+    else:
+        key = ('lazy', kind, rng) + tuple(a.get_id() for a in args)
+    hit = CTX.sqrt_cache.get(key)
+    if hit is not None:
+        return hit[0]
+    out = _lazy_new(kind, rng, args, fv)
+    CTX.sqrt_cache[key] = (out, args)     # same function of the same arguments is the same angle
+    return out
+
+
+def _lazy_new(kind, rng, args, fv=None):
     CTX.angle_n += 1
     name = f"{kind}_{CTX.angle_n}"
     v = CTX.newvar('ang', ('angle', name))
-    return new_angle(name, rng, 'rad', var=v, lazy=(kind, args))
+    return new_angle(name, rng, 'rad', var=v, lazy=(kind, args), fv=fv)
 
 
 def sym_arctan2(y, x):
     if not isinstance(y, SR) and not isinstance(x, SR):
         return math.atan2(y, x)
-    return _lazy('atan2', 'pm_pi', (lift(y), lift(x)))
+    return _lazy('atan2', 'pm_pi', (lift(y), lift(x)), core._fop(_np.arctan2, y, x))
 
 
 def sym_arctan(v):
     if not isinstance(v, SR):
         return math.atan(v)
-    a = _lazy('atan2', 'pm_halfpi', (lift(v), z3.RealVal(1)))
+    a = _lazy('atan2', 'pm_halfpi', (lift(v), z3.RealVal(1)), core._fop(_np.arctan, v))
     return a
 
 
@@ -243,7 +260,8 @@ def sym_arcsin(v):
         return math.asin(v) if -1 <= v <= 1 else builtins.float('nan')
     CTX.obligation('arcsin', z3.Or(v.t > 1, v.t < -1), 'arcsin argument outside [-1, 1]')
     CTX.assumes.append(z3.And(v.t <= 1, v.t >= -1))
-    return _lazy('asin', 'pm_halfpi', (v.t,))
+    core.mask_and(None if v.fv is None else (_np.abs(v.fv) <= 1))
+    return _lazy('asin', 'pm_halfpi', (v.t,), core._fop(_np.arcsin, v))
 
 
 def sym_arccos(v):
@@ -252,7 +270,8 @@ def sym_arccos(v):
         return math.acos(v) if -1 <= v <= 1 else builtins.float('nan')
     CTX.obligation('arccos', z3.Or(v.t > 1, v.t < -1), 'arccos argument outside [-1, 1]')
     CTX.assumes.append(z3.And(v.t <= 1, v.t >= -1))
-    return _lazy('acos', '0_pi', (v.t,))
+    core.mask_and(None if v.fv is None else (_np.abs(v.fv) <= 1))
+    return _lazy('acos', '0_pi', (v.t,), core._fop(_np.arccos, v))
 
 
 def single_lazy(a):
@@ -278,8 +297,20 @@ def to_radians(x, unit):
 def angle_eq_term(a, b):
     """z3 Bool: computed angle a equals expected angle b (both radians; same principal range is the
     caller's business when a is not a lazy atom)"""
+    if not isinstance(a, SR) and not isinstance(b, SR):
+        return z3.BoolVal(abs(builtins.float(a) - builtins.float(b)) < 1e-12)
+    if isinstance(a, SR) and isinstance(b, SR) and a.t.eq(b.t):
+        return z3.BoolVal(True)
+    lza, lzb = single_lazy(a), single_lazy(b)
+    if lza and lzb and lza[0] == lzb[0]:
+        # two inverse-trig results of the same kind: compare their arguments
+        if lza[0] == 'atan2':
+            (y1, x1), (y2, x2) = lza[1], lzb[1]
+            both0 = z3.And(x1 == 0, y1 == 0, x2 == 0, y2 == 0)
+            return z3.Or(both0, z3.And(y1 * x2 == y2 * x1, x1 * x2 + y1 * y2 > 0))
+        return lza[1][0] == lzb[1][0]
     cb, sb = cossin(b)
-    lz = single_lazy(a)
+    lz = lza
     if lz:
         kind, args = lz
         if kind == 'atan2':
